@@ -52,6 +52,13 @@ class Svc(rpyc.Service):
     def exposed_add(self, a, b): return a + b
     def exposed_boom(self): raise ValueError("boom", 7)
     def exposed_mk(self): return [1, 2, 3]
+    def exposed_nt(self):
+        import collections
+        return collections.namedtuple("Point", "x y")(3, 4)
+    def exposed_st(self):
+        import time
+        return time.gmtime(0)
+    def exposed_mixed(self): return (1, [2], "z")
     exposed_attr = 42
 
 
@@ -232,6 +239,14 @@ def conversation(ctx, form, compress, r):
     if rs and rs[0][0][0] == R.MSG_EXCEPTION:
         ex = rs[0][0][2]
         expect(isinstance(ex, tuple) and len(ex) == 4 and ex[0] == ("builtins", "ValueError") and ex[1] == ("boom", 7), "exception payload", ex[:2] if isinstance(ex, tuple) else ex)
+    # the value/reference rule as published: exact tuples are boxed item-wise, instances of tuple SUBCLASSES (namedtuple, struct
+    # sequences) are objects and travel by reference
+    for meth in ("nt", "st"):
+        seq, rs = p.request(R.H["CALLATTR"], rootref, V(meth), (R.LABEL_TUPLE, ()), V(()))
+        expect(len(rs) == 1 and rs[0][0][0] == R.MSG_REPLY and rs[0][0][2][0] == R.LABEL_REMOTE_REF, "tuple-subclass instance by reference (%s)" % meth, rs and rs[0][0][2][:1])
+    seq, rs = p.request(R.H["CALLATTR"], rootref, V("mixed"), (R.LABEL_TUPLE, ()), V(()))
+    expect(len(rs) == 1 and rs[0][0][0] == R.MSG_REPLY and rs[0][0][2][0] == R.LABEL_TUPLE and [x[0] for x in rs[0][0][2][1]] == [R.LABEL_VALUE, R.LABEL_REMOTE_REF, R.LABEL_VALUE],
+           "tuple with a by-reference item boxed item-wise", rs and rs[0][0][2])
     seq, rs = p.request(R.H["CALLATTR"], rootref, V("mk"), (R.LABEL_TUPLE, ()), V(()))
     expect(len(rs) == 1 and rs[0][0][0] == R.MSG_REPLY and rs[0][0][2][0] == R.LABEL_REMOTE_REF, "reference reply", rs and rs[0][0])
     if rs and rs[0][0][2][0] == R.LABEL_REMOTE_REF:
